@@ -174,7 +174,19 @@ func (vc *VC) applyContractOn(callee *ssa.Function, args []Term, preIn *Heap, r 
 		default:
 			if vc.fn.Recover != nil && vc.panicking == "" {
 				pf := vc.fresh("callee_panics", SBool)
-				vc.panicPath(preIn, and(r, pf), vc.prog.modset(callee))
+				vc.panicPath(preIn, and(r, pf), vc.prog.modset(callee), c, env)
+				r = vc.define("no_panic", SBool, and(r, not(pf)))
+				rOverride = r
+			} else if vc.contract != nil && len(vc.contract.OnPanic) > 0 && !vc.inPanicExit {
+				// the callee may panic: this function is then left by that panic, in the state the callee
+				// leaves behind (anything it may modify, constrained by its own exceptional postconditions)
+				pf := vc.fresh("callee_panics", SBool)
+				hp := preIn.clone()
+				ms := vc.prog.modset(callee)
+				vc.declareModSet(ms)
+				vc.havocFor(hp, ms)
+				vc.assumeOnPanic(c, env, preIn, hp, and(r, pf))
+				vc.onPanicExit(hp, and(r, pf), "call."+label)
 				r = vc.define("no_panic", SBool, and(r, not(pf)))
 				rOverride = r
 			} else {
@@ -749,18 +761,24 @@ func rpo(fn *ssa.Function) []*ssa.BasicBlock {
 // panicPath: in a function with a recover block, a callee that may panic gives a second way on:
 // the deferred calls run with recover() != nil and, if one of them recovers, control resumes in the
 // function's recover block.
-func (vc *VC) panicPath(h *Heap, reach string, ms *ModSet) {
+func (vc *VC) panicPath(h *Heap, reach string, ms *ModSet, callee *Contract, env *Env) {
 	if vc.fn.Recover == nil {
 		return
 	}
 	hp := h.clone()
 	vc.declareModSet(ms)
 	vc.havocFor(hp, ms)
+	vc.assumeOnPanic(callee, env, h, hp, reach)
 	r := reach
 	if vc.runDefers(hp, &r, "true") {
 		vc.recoverEdges = append(vc.recoverEdges, recoverEdge{r, hp})
 	} else {
+		// the panic leaves this function, after its deferred calls have run in hp
+		vc.checkOnPanic(hp, r, "a panicking callee")
+		save := vc.inPanicExit
+		vc.inPanicExit = true // (the exit has just been judged in the callee's state, not in the caller's)
 		vc.safety("panic-propagates", reach, "false", "a callee may panic and no deferred call recovers")
+		vc.inPanicExit = save
 	}
 }
 
@@ -789,4 +807,57 @@ func (vc *VC) ownerOf(v ssa.Value) (Term, bool) {
 	}
 	t.T = fa.X.Type()
 	return t, true
+}
+
+// assumeOnPanic: what a callee guarantees when it is left by a panic (its onpanic clauses), assumed in
+// the state hp it leaves behind; pre is the state it was called in.
+func (vc *VC) assumeOnPanic(c *Contract, env *Env, pre, hp *Heap, reach string) {
+	if c == nil || env == nil || len(c.OnPanic) == 0 {
+		return
+	}
+	e2 := *env
+	e2.cur = hp
+	e2.old = pre
+	for _, cl := range c.OnPanic {
+		s, err := e2.evalAssume(cl.Expr)
+		if err != nil {
+			panic(evalError{fmt.Sprintf("onpanic of %s: %v", c.Key, err)})
+		}
+		vc.assume(reach, s)
+	}
+}
+
+// onPanicExit: this function is left by a panic in state h under path condition reach.  Its deferred
+// calls run (none of them recovers: functions with a recover block take panicPath instead), and then
+// its exceptional postconditions must hold.
+func (vc *VC) onPanicExit(h *Heap, reach string, what string) {
+	if vc.contract == nil || len(vc.contract.OnPanic) == 0 || vc.inPanicExit || reach == "false" {
+		return
+	}
+	vc.inPanicExit = true
+	defer func() { vc.inPanicExit = false }()
+	hp := h.clone()
+	r := reach
+	if vc.runDefers(hp, &r, "true") {
+		return // a deferred call recovers: the function is not left by this panic
+	}
+	vc.checkOnPanic(hp, r, what)
+}
+
+// checkOnPanic: the exceptional postconditions in state hp (deferred calls already run)
+func (vc *VC) checkOnPanic(hp *Heap, r string, what string) {
+	if vc.contract == nil || len(vc.contract.OnPanic) == 0 {
+		return
+	}
+	env := vc.entryEnv()
+	env.cur = hp
+	env.old = vc.entryHeap
+	k := vc.counter("onpanic")
+	for i, cl := range vc.contract.OnPanic {
+		s, err := env.evalGoal(cl.Expr)
+		if err != nil {
+			panic(evalError{fmt.Sprintf("onpanic %s: %v", vc.contract.clauseName(cl, i), err)})
+		}
+		vc.oblige("onpanic", fmt.Sprintf("onpanic.%s.%d", vc.contract.clauseName(cl, i), k), cl.Tags, r, s, cl.Src+"   [left by a panic at: "+what+"]")
+	}
 }
